@@ -1021,6 +1021,14 @@ class _FunctionAnalysis:
                 for b in args[0]:
                     res |= self.attr_of(b, node.args[1].value, node, env)
                 return frozenset(res)
+            names = self._const_strings(node.args[1])
+            if names:
+                # getattr(net, name) with `name` ranging over a literal tuple of attribute names
+                res = set()
+                for an in names:
+                    for b in args[0]:
+                        res |= self.attr_of(b, an, node, env)
+                return frozenset(res)
             res = set()
             for b in args[0]:
                 if b[0] in ("view", "net", "obj", "stat"):
@@ -1029,13 +1037,42 @@ class _FunctionAnalysis:
         if name == "setattr" and args:
             for b in args[0]:
                 if b[0] in ("net", "obj"):
-                    an = node.args[1].value if isinstance(node.args[1], ast.Constant) else "?"
-                    self._attr_store(b, str(an), args[2] if len(args) > 2 else frozenset(), node)
+                    ans = [node.args[1].value] if isinstance(node.args[1], ast.Constant) else (self._const_strings(node.args[1]) or ["?"])
+                    for an in ans:
+                        self._attr_store(b, str(an), args[2] if len(args) > 2 else frozenset(), node)
             return frozenset()
         if name in SCALAR_BUILTINS:
             return frozenset()
         self.summ.unresolved += 1
         return frozenset()
+
+    def _const_strings(self, e):
+        """String values a name can hold when it is a loop variable over, or bound to elements of, a literal
+        tuple / list / set of string constants (possibly bound to a local or module-level name first)."""
+        if not isinstance(e, ast.Name):
+            return []
+
+        def lits(x, depth=0):
+            if isinstance(x, (ast.Tuple, ast.List, ast.Set)) and x.elts and all(isinstance(c, ast.Constant) and isinstance(c.value, str) for c in x.elts):
+                return [c.value for c in x.elts]
+            if isinstance(x, ast.Name) and depth < 2:
+                for st in ast.walk(self.fn.node):
+                    if isinstance(st, ast.Assign) and len(st.targets) == 1 and isinstance(st.targets[0], ast.Name) and st.targets[0].id == x.id:
+                        r = lits(st.value, depth + 1)
+                        if r:
+                            return r
+                mv = self.fn.module.assigns.get(x.id) if hasattr(self.fn.module, "assigns") else None
+                if mv is not None:
+                    return lits(mv, depth + 1)
+            return []
+
+        out = []
+        for st in ast.walk(self.fn.node):
+            if isinstance(st, (ast.For, ast.comprehension)) and isinstance(st.target, ast.Name) and st.target.id == e.id:
+                out += lits(st.iter)
+            if isinstance(st, ast.Assign) and len(st.targets) == 1 and isinstance(st.targets[0], ast.Name) and st.targets[0].id == e.id and isinstance(st.value, ast.Constant) and isinstance(st.value.value, str):
+                out.append(st.value.value)
+        return out
 
     def _iter_elems_for_copy(self, vals):
         """Elements of a shallow copy/iteration of vals (set(x), list(x), zip(x, ...), sorted(x))."""
